@@ -129,6 +129,9 @@ func importObs(bs []byte) (term string, ok bool) {
 	// the blob is handed over in a slice of exactly its length (no spare capacity behind it)
 	bs = append(make([]byte, 0, len(bs)), bs...)
 	st, err := stream.NewStreamWithCryptoState(ca, bs)
+	for i := range bs { // the caller wipes its copy of the key material; the snapshot below must not change
+		bs[i] = 0xEE
+	}
 	if err != nil {
 		return "None", false
 	}
